@@ -279,10 +279,11 @@ struct Runner {
 		}
 	}
 
-	// snapshot of the pool + outstanding blocks + the harness' own verdict on the invariant (independent of the model)
+	// snapshot of the pool + outstanding blocks + the harness' own verdict on the invariant (independent of the model):
+	// the set of defects present, in the fixed order invalid, wrongalloc, leak, shared, extleak, wrongdealloc
 	std::string snapshot() {
 		std::string s = " | S";
-		std::string bad;
+		bool invalid = false, wrongalloc = false, leak = false, shared = false, extleak = false;
 		std::vector<int> owners(lg::g_blocks.size(), 0);
 		for(int i = 0; i < P; ++i) {
 			if(!alive[i]) { s += " -"; continue; }
@@ -294,14 +295,14 @@ struct Runner {
 			void const* bp = static_cast<void const*>(a.base());
 			int id = -1;
 			for(std::size_t k = 0; k < lg::g_blocks.size(); ++k) if(lg::g_blocks[k].p == bp) id = static_cast<int>(k);
-			if(bp == nullptr) { s += "null]"; if(bad.empty()) bad = "invalid"; continue; }
-			if(id < 0) { s += "?]"; if(bad.empty()) bad = "invalid"; continue; }
+			if(bp == nullptr) { s += "null]"; invalid = true; continue; }
+			if(id < 0) { s += "?]"; invalid = true; continue; }
 			auto const& b = lg::g_blocks[static_cast<std::size_t>(id)];
 			s += std::string(b.freed ? "x" : "") + std::to_string(id) + "]";
-			if(b.freed || b.n != n) { if(bad.empty()) bad = "invalid"; continue; }
+			if(b.freed || b.n != n) { invalid = true; continue; }
 			++owners[static_cast<std::size_t>(id)];
-			if(lg::g_observe) { for(long k = 0; k < n; ++k) if(!lg::g_live.count(b.p + k * lg::g_elem_size)) { if(bad.empty()) bad = "invalid"; break; } }
-			if(!lg::eqv(al, b.alloc)) { if(bad.empty()) bad = "wrongalloc"; }
+			if(lg::g_observe) { for(long k = 0; k < n; ++k) if(!lg::g_live.count(b.p + k * lg::g_elem_size)) { invalid = true; break; } }
+			if(!lg::eqv(al, b.alloc)) wrongalloc = true;
 		}
 		s += " | O";
 		long inblock_live = 0;
@@ -312,11 +313,13 @@ struct Runner {
 			inblock_live += lv;
 			if(b.freed) continue;
 			s += " " + std::to_string(k) + ":" + std::to_string(b.n) + ":" + (lg::g_observe ? std::to_string(lv) : std::string("_"));
-			if(owners[k] == 0 && bad.empty()) bad = "leak";
-			if(owners[k] > 1 && bad.empty()) bad = "shared";
+			if(owners[k] == 0) leak = true;
+			if(owners[k] > 1) shared = true;
 		}
-		if(lg::g_observe && static_cast<long>(lg::g_live.size()) != inblock_live && bad.empty()) bad = "extleak";
-		if(lg::g_wrong_dealloc && bad.empty()) bad = "wrongdealloc";
+		if(lg::g_observe && static_cast<long>(lg::g_live.size()) != inblock_live) extleak = true;
+		std::string bad;
+		auto add = [&](bool f, char const* w) { if(f) bad += (bad.empty() ? "" : ",") + std::string(w); };
+		add(invalid, "invalid"); add(wrongalloc, "wrongalloc"); add(leak, "leak"); add(shared, "shared"); add(extleak, "extleak"); add(lg::g_wrong_dealloc, "wrongdealloc");
 		s += " | inv " + (bad.empty() ? std::string("ok") : "BAD:" + bad);
 		return s;
 	}
@@ -354,7 +357,7 @@ struct Runner {
 			return op;
 		}
 		if(op == "ctor_range") {  // iterator-pair constructor from begin()/end() of slot j (non-empty)
-			int i = I(2), j = I(3); if(!need(i, false) || !need(j, true)) return "skip"; if(at(j).size() < 1) return "skip"; lg::begin(op); Arr const& src = at(j);
+			int i = I(2), j = I(3); if(!need(i, false) || !need(j, true)) return "skip"; lg::begin(op); Arr const& src = at(j);
 			construct(i, [&](void* p) { new(p) Arr(src.begin(), src.end(), AP::template make<T>(I(4))); }); return op;
 		}
 		if(op == "ctor_move") { int i = I(2), j = I(3); if(!need(i, false) || !need(j, true)) return "skip"; lg::begin(op); construct(i, [&](void* p) { new(p) Arr(std::move(at(j))); }); return op; }
@@ -363,7 +366,8 @@ struct Runner {
 		if(op == "clear") { int i = I(2); if(!need(i, true)) return "skip"; lg::begin(op); at(i).clear(); return op; }
 		if(op == "assign_copy") { int i = I(2), j = I(3); if(!need(i, true) || !need(j, true)) return "skip"; std::string tag = op + (i == j ? "/self" : at(i).extensions() == at(j).extensions() ? "/same" : "/diff"); lg::begin(tag); Arr const& src = at(j); at(i) = src; return tag; }
 		if(op == "assign_move") { int i = I(2), j = I(3); if(!need(i, true) || !need(j, true)) return "skip"; std::string tag = op + (i == j ? "/self" : ""); lg::begin(tag); at(i) = std::move(at(j)); return tag; }
-		if(op == "swap") { int i = I(2), j = I(3); if(!need(i, true) || !need(j, true)) return "skip"; lg::begin(op); at(i).swap(at(j)); return op; }
+		if(op == "swap") { int i = I(2), j = I(3); if(!need(i, true) || !need(j, true)) return "skip"; if(!((AP::cfg & 4) != 0 || at(i).get_allocator() == at(j).get_allocator())) return "skip";  // swapping unequal non-propagating allocators is undefined (as for standard containers)
+			lg::begin(op); at(i).swap(at(j)); return op; }
 		if(op == "reextent" || op == "reextent_fill" || op == "reextent_rv") {
 			int i = I(2); if(!need(i, true)) return "skip"; auto ex = EX(3); std::string tag = op + (same_ext(i, ex) ? "/same" : "/diff"); lg::begin(tag);
 			bool diff = !same_ext(i, ex);
@@ -373,17 +377,17 @@ struct Runner {
 			return tag;
 		}
 		if(op == "reshape") { int i = I(2); if(!need(i, true)) return "skip"; auto ex = EX(3); long n = 1; for(auto const& e : ex) n *= (e.second - e.first); if(n != static_cast<long>(at(i).num_elements())) return "skip"; lg::begin(op); at(i).reshape(mkext<D>(ex)); return op; }
-		// array::assign(extensions, element) (array.hpp:1401-1410) cannot be instantiated at this commit ("layout_t is an inaccessible base"): not an operation of any history
+		if(op == "assign_fill") { int i = I(2); if(!need(i, true)) return "skip"; auto ex = EX(3); std::string tag = op + (same_ext(i, ex) ? "/same" : "/diff"); lg::begin(tag); T v = mkval<T>(5); at(i).assign(mkext<D>(ex), v); return tag; }
 		if(op == "assign_view" || op == "assign_viewl") {  // A = B.sliced(lo, hi) | A = B()   (assign_viewl: the view is a named lvalue)
 			int i = I(2), j = I(3); if(!need(i, true) || !need(j, true) || i == j) return "skip"; long lo = std::stol(w[4]), hi = std::stol(w[5]); if(lo >= 0 && !slice_ok(j, lo, hi)) return "skip";
 			Arr const& src = at(j); bool lv = op == "assign_viewl";
 			if(lo < 0) { auto const& v = src(); std::string tag = op + (at(i).extensions() == v.extensions() ? "/same" : "/diff"); lg::begin(tag); if(lv) at(i) = v; else at(i) = src(); return tag; }
 			auto const& v = src.sliced(lo, hi); std::string tag = op + (at(i).extensions() == v.extensions() ? "/same" : "/diff"); lg::begin(tag); if(lv) at(i) = v; else at(i) = src.sliced(lo, hi); return tag;
 		}
-		if(op == "assign_range") {  // A.assign(B.begin(), B.end())
-			int i = I(2), j = I(3); if(!need(i, true) || !need(j, true) || i == j) return "skip"; if(at(j).size() < 1) return "skip"; Arr const& src = at(j);
-			if(src.size() == at(i).size() && !(src.extensions() == at(i).extensions())) return "skip";  // out of domain: equal length, different inner extents
-			std::string tag = op + (src.size() == at(i).size() ? "/same" : "/diff"); lg::begin(tag); at(i).assign(src.begin(), src.end()); return tag;
+		if(op == "assign_range") {  // A.assign(B.begin(), B.end()): in place iff same count and same inner extensions (array.hpp:1417-1426)
+			int i = I(2), j = I(3); if(!need(i, true) || !need(j, true) || i == j) return "skip"; Arr const& src = at(j);
+			bool same = src.size() == at(i).size() && (at(i).size() == 0 || multi::extensions(*src.begin()) == multi::extensions(*at(i).begin()));
+			std::string tag = op + (same ? "/same" : "/diff"); lg::begin(tag); at(i).assign(src.begin(), src.end()); return tag;
 		}
 		if(op == "view_assign") {  // A() = B(): assignment through views, equal extensions only
 			int i = I(2), j = I(3); if(!need(i, true) || !need(j, true) || i == j) return "skip"; if(!(at(i).extensions() == at(j).extensions())) return "skip"; lg::begin(op); Arr const& src = at(j); at(i)() = src(); return op;
@@ -432,7 +436,7 @@ struct Runner {
 			std::sort(infs.begin(), infs.end());
 			for(auto const& s : infs) inf += " " + s;
 			std::string snap = snapshot();
-			if(snap.find("BAD:invalid") != std::string::npos || snap.find("BAD:shared") != std::string::npos) poisoned = true;
+			if(snap.find("invalid") != std::string::npos || snap.find("shared") != std::string::npos) poisoned = true;
 			lg::out(" " + status + extra + " | F" + f + " | I" + inf + snap);
 		}
 	}
@@ -481,7 +485,7 @@ static RunFn pick(Cfg const& c) {
 	return nullptr;
 }
 
-static void on_terminate() { lg::out(lg::g_open ? " TERMINATED" : "r ? TERMINATED"); lg::out("halt"); lg::out("end halted"); _exit(0); }
+static void on_terminate() { std::string st = std::string("TERMINATED:") + (lg::g_fired ? lg::g_fired : '?'); lg::out(lg::g_open ? " " + st : "r ? " + st); lg::out("halt"); lg::out("end halted"); _exit(0); }
 
 // child: executes one program (lines after the `prog` line) and writes the answers to fd
 static void child_main(std::vector<std::string> const& lines, int fd) {
@@ -583,7 +587,7 @@ static std::vector<std::string> gen_history(Rng& rng, Cfg const& c, int maxops, 
 					if(l - f >= 1 && rng.coin(65)) { long lo = f, hi = rng.range(lo, l); L.push_back("x ctor_view " + std::to_string(i) + " " + std::to_string(j) + " " + std::to_string(a) + " " + std::to_string(lo) + " " + std::to_string(hi)); auto e = sh[j].ex; e[0] = Ex{lo, hi}; sh[i] = Shadow{true, a, collapse(e)}; }
 					else { L.push_back("x ctor_view " + std::to_string(i) + " " + std::to_string(j) + " " + std::to_string(a) + " -1 -1"); sh[i] = sh[j]; sh[i].alloc = a; }
 				}
-				else if(form == 6) { if(sh[j].ex[0].second - sh[j].ex[0].first < 1) { --k; continue; } L.push_back("x ctor_range " + std::to_string(i) + " " + std::to_string(j) + " " + std::to_string(a)); sh[i] = sh[j]; sh[i].alloc = a; }
+				else if(form == 6) { L.push_back("x ctor_range " + std::to_string(i) + " " + std::to_string(j) + " " + std::to_string(a)); sh[i] = sh[j]; sh[i].alloc = a; }
 				else if(form == 7) { L.push_back("x ctor_move " + std::to_string(i) + " " + std::to_string(j)); sh[i] = sh[j]; sh[j].ex = collapse(std::vector<Ex>(static_cast<std::size_t>(c.D), Ex{0, 0})); }
 				else { L.push_back("x ctor_move_a " + std::to_string(i) + " " + std::to_string(j) + " " + std::to_string(a)); sh[i] = sh[j]; sh[i].alloc = a; sh[j].ex = collapse(std::vector<Ex>(static_cast<std::size_t>(c.D), Ex{0, 0})); }
 			}
@@ -592,7 +596,7 @@ static std::vector<std::string> gen_history(Rng& rng, Cfg const& c, int maxops, 
 		if(lv.empty()) continue;
 		int i = any(lv);
 		int j = any(lv);
-		int kind = rng.pick({6, 4, 14, 10, 6, 9, 9, 5, 4, 0, 8, 6, 5, 3});
+		int kind = rng.pick({6, 4, 14, 10, 6, 9, 9, 5, 4, 7, 8, 6, 5, 3});
 		std::string si = std::to_string(i), sj = std::to_string(j);
 		switch(kind) {
 			case 0: L.push_back("x dtor " + si); sh[i].alive = false; break;
@@ -615,7 +619,7 @@ static std::vector<std::string> gen_history(Rng& rng, Cfg const& c, int maxops, 
 				else { L.push_back(std::string(rng.coin(50) ? "x assign_view " : "x assign_viewl ") + si + " " + sj + " -1 -1"); sh[i].ex = sh[j].ex; }
 				break;
 			}
-			case 11: { if(i == j || sh[j].ex[0].second - sh[j].ex[0].first < 1) { --k; continue; } L.push_back("x assign_range " + si + " " + sj); sh[i].ex = sh[j].ex; break; }
+			case 11: { if(i == j) { --k; continue; } L.push_back("x assign_range " + si + " " + sj); sh[i].ex = sh[j].ex; break; }
 			case 12: { if(i == j) { --k; continue; } L.push_back("x view_assign " + si + " " + sj); break; }
 			case 13: { auto e = gen_ext(rng, c.D, false); L.push_back("x sa_move " + std::to_string(pick_alloc()) + ex_str(e)); break; }
 		}
